@@ -727,6 +727,7 @@ func nmove(wdt float64, subd int, zeit int, g *GlobalVarsMain, l *NitroSharedVar
 		}
 		Carray[z+1] = (g.C1[z] + g.DN[z]*wdt/2) / (g.WG[0][z] * g.DZ.Num * 100)
 		if Carray[z+1] < 0 {
+			verifNClamp(g, "carray", z, -Carray[z+1]*(g.WG[0][z]*g.DZ.Num*100))
 			Carray[z+1] = 0
 		}
 	}
@@ -783,6 +784,7 @@ func nmove(wdt float64, subd int, zeit int, g *GlobalVarsMain, l *NitroSharedVar
 		cKonz := (Carray[z+1]*g.WG[0][z] + l.DISP[z] - l.KONV[z]) * g.DZ.Num * 100
 
 		if cKonz < 0 {
+			verifNClamp(g, "ckonz", z, -cKonz)
 			g.C1[z] = 0
 			// C1 may be below 0 because of rounding issues, set it to 0
 			// if C1 is significat below zero, there might be an instabily in the calculations
@@ -826,6 +828,7 @@ func nmove(wdt float64, subd int, zeit int, g *GlobalVarsMain, l *NitroSharedVar
 		g.C1[z] = g.C1[z] + g.DN[z]*wdt/2
 
 		if g.C1[z] < 0 {
+			verifNClamp(g, "source", z, -g.C1[z])
 			g.C1[z] = 0
 		}
 	}
